@@ -201,6 +201,10 @@ def gen_value(rng, depth):
             items.append(BatchItem(index=i, status=st,
                                    result=gen_value(rng, depth - 1) if st is BatchItemStatus.SUCCEEDED else None,
                                    error=gen_error(rng) if st is BatchItemStatus.FAILED and rng.random() < 0.9 else None))
+        if len(items) > 1 and rng.random() < 0.4:
+            rng.shuffle(items)       # a result re-arranged by user code (failed first, completion order): order is part of the value
+        if items and rng.random() < 0.15:
+            items = items + [BatchItem(index=items[0].index, status=items[0].status, result=items[0].result, error=items[0].error)]   # merged batches
         return BatchResult(all=items, completion_reason=rng.choice(list(CompletionReason)))
     return [gen_leaf(rng) for _ in range(n)]  # primitive-ish list (fast path candidates)
 
